@@ -214,8 +214,11 @@ def facade(chk, strings, rng):
         # texts that look like formulas after leading whitespace are always among those read through the real file reader
         always = [x for x in PAYLOADS if x.lstrip().startswith('=') and x in pool]
         pool = always + [x for x in pool if x not in always]
-        for k in range(0, min(len(pool), 60), 6):
-            batch = pool[k:k + 6]
+        batches = [pool[k:k + 6] for k in range(0, min(len(pool), 60), 6)]
+        bi = 0
+        while bi < len(batches):
+            batch = batches[bi]
+            bi += 1
             rows = [[(s if not s.startswith('=') else 'x' + s), '=' + excel_literal(s)] for s in batch]
             for safety in (True, False):
                 try:
@@ -225,6 +228,14 @@ def facade(chk, strings, rng):
                     chk.count('facade:rejected:' + kind)
                     if kind not in ('Parser', 'Cell', 'Safety'):
                         chk.violation({'why': 'full-path translation of planted text ends with a foreign exception', 'impl': 'E' + kind, 'safety': safety, 'stream': 'facade'})
+                    elif kind != 'Safety':
+                        # constant texts and plain text literals are always translatable: find the string that is not carried as data
+                        if len(batch) > 1:
+                            batches.extend([[x] for x in batch])
+                        else:
+                            chk.violation({'why': 'a workbook of one constant text and one plain text literal, read from a real file, is rejected: the text is not carried as inert data',
+                                           'string': repr(batch[0]), 'impl': 'E' + kind, 'error': str(e)[:200], 'safety': safety, 'stream': 'facade'})
+                        break
                     continue
                 chk.count('facade:accepted:safety=%s' % safety)
                 try:
